@@ -4,7 +4,7 @@
    the general facts about the loop ("growing the recursion seed until it stops advancing").                 *)
 From Coq Require Import List NArith.
 From TatsuV Require Import Base.PyStr Engine.Value Engine.Syntax Engine.Input Engine.Engine Engine.Calls
-     Engine.LrecProof Engine.MemoProof.
+     Engine.LrecProof Engine.MemoProof Engine.FaithfulBounds.
 Import ListNotations.
 
 (* the loop returns the last seed of a strictly advancing chain of seeds *)
@@ -49,3 +49,40 @@ Theorem C03_right_recursion_is_peg_partial :
     = peval text re_at isalnum isalpha lower upper ic unsafe rules ec act lineat n e f.
 Proof. exact memo_transparent. Qed.
 Print Assumptions C03_right_recursion_is_peg_partial.
+
+(* termination of the seed-growing loop: every seed ends inside the text (memo entries and seeds only ever hold end
+   positions between their key and the end of the text - invariant StateOK, carried through every construct), each round
+   must end strictly further than the last, so with more rounds available than positions remain the loop never stops for
+   lack of rounds: it runs at most len(text) + 2 times, whatever the grammar.  (The body evaluations themselves are
+   assumed not to run out of fuel: unbounded recursion inside the body is C16's subject.) *)
+Theorem C03_seed_loop_is_bounded_by_the_text :
+  forall text re_at isalnum isalpha lower upper ic unsafe rules ec act lineat,
+  (forall id pos n v, re_at id pos = Some (n, v) -> pos + n <= len text) ->
+  forall m n rl r k st rr st',
+  let ev := feval text re_at isalnum isalpha lower upper ic unsafe rules ec act lineat m in
+  StateOK text st -> fst k <= len text ->
+  (forall st0 st1, rule_call upper ic ec act lineat ev rl r k st0 <> (RFatal OOF, st1)) ->
+  S (S (len text)) <= n ->
+  grow upper ic ec act lineat n ev rl r k None RFail st = (rr, st') -> rr <> RFatal OOF.
+Proof.
+  intros text re_at isalnum isalpha lower upper ic unsafe rules ec act lineat RB m n rl r k st rr st' ev S H NOOF Hn E.
+  refine (grow_rounds text upper ic ec act lineat ev _ n rl r k None RFail st rr st' S H I NOOF Hn E).
+  exact (feval_b text re_at isalnum isalpha lower upper ic unsafe rules ec act lineat RB m).
+Qed.
+Print Assumptions C03_seed_loop_is_bounded_by_the_text.
+
+(* the invariant is not vacuous: it holds initially and every parse keeps it; a successful left-recursive parse ends in the text *)
+Theorem C03_parse_ends_inside_the_text :
+  forall text re_at isalnum isalpha lower upper ic unsafe rules ec act lineat,
+  (forall id pos n v, re_at id pos = Some (n, v) -> pos + n <= len text) ->
+  forall n start v f' st,
+  parse_with text re_at isalnum isalpha lower upper ic unsafe rules ec act lineat n start = (Ok v f', st) ->
+  pos f' <= len text.
+Proof. exact parse_consumed_bounds. Qed.
+Print Assumptions C03_parse_ends_inside_the_text.
+
+(* a concrete instance: e = e '+' 'a' | 'a' on "a+a+a" - the seed grows three times and the result is the left fold *)
+Example C03_left_fold_witness :
+  exists f, fst l_run = Ok (VList true [VList true [l_a; l_plus; l_a]; l_plus; l_a]) f /\ pos f = 5.
+Proof. exact lrec_witness. Qed.
+Print Assumptions C03_left_fold_witness.
